@@ -250,6 +250,16 @@ def run(chk: common.Check) -> None:
             msgs.append('an event was delivered before on_start_run')
         if msgs:
             oracle_fail.append(({'real_run': sp}, msgs))
+    # a hook that is busy for seconds on one event while the run comes to its end (script ends / child is killed with events queued behind it)
+    from . import _lag
+    lag_specs = _lag.specs()
+    for sp, r in zip(lag_specs, common.real_runs(lag_specs, jobs=2, hard_timeout=150)):
+        chk.cov.case(('real-lagging-hook', sp['lag']))
+        chk.cov.count('kinds', 'real-child-hook-busy-at-the-end-' + sp['lag'])
+        found = _lag.oracle(sp, r)
+        msgs = [m for a in ('delivery', 'protocol') for m in found[a]]
+        if msgs:
+            oracle_fail.append(({'real_run': sp}, msgs))
     for ctx, msgs in oracle_fail[:5]:
         chk.violation(f'C10 oracle: {msgs[0]}', {'case': ctx, 'oracle_messages': msgs})
     broken = common.proof_broken(chk)
